@@ -9,6 +9,9 @@ tlbparsers_tx.py and only adds:
               `SrcTx.<Class>` (Generated/TlbParsersTx.lean); `Transaction` is called with the budget of the spec's `transaction` (3)
   reads       S.load_dict(N, value_deserializer=T.deserialize)      -> Rd.loadDict N (T false) S         (T a translated class)
               S.load_hashmap(N, value_deserializer=T.deserialize)   -> Rd.loadHashmap N (T false) sp S   (inline `Hashmap N X`)
+              S.load_hashmap_aug_e(N, x_deserializer=X, y_deserializer=Y) (keywords or positions; X, Y as above)
+                                                                    -> Rd.loadHashmapAugE N X Y sp S     (`(dict, extras)` tuple)
+  returns     `return S.load_hashmap_aug_e(…)` : the parser returns the tuple itself (ShardAccounts, OldMcBlocksInfo)
   erased      the keyword argument `cell=` of `ShardAccount(…)` (a copy of the slice being parsed: bookkeeping, no schema field) is
               evaluated but not made part of the returned object (declared interface, as for `Transaction(cell=…)`).
 
@@ -42,6 +45,7 @@ CLASSES = [
     ('block', 'DepthBalanceInfo'), ('block', 'ValueFlow'), ('block', 'ShardDescr'),
     ('account', 'AccountStorage'), ('account', 'Account'), ('account', 'ShardAccount'),
     ('config', 'ValidatorSet'),
+    ('block', 'ShardAccounts'), ('block', 'OldMcBlocksInfo'), ('block', 'BlockCreateStats'),
 ]
 
 ERASED_KW = {('ShardAccount', 'cell')}
@@ -88,6 +92,22 @@ class FnBlk(TX.FnTx):
             else:
                 out.append(f'let ({t}, {s.var}) ← Rd.loadHashmap {n} {rd} {s.sp} {s.var}')
             return V(t, 'dict')
+        if isinstance(f, ast.Attribute) and isinstance(f.value, ast.Name) and isinstance(env.get(f.value.id), S) \
+                and f.attr == 'load_hashmap_aug_e':
+            s = env[f.value.id]
+            names = ['key_length', 'x_deserializer', 'y_deserializer']
+            args = dict(zip(names, e.args))
+            for k in e.keywords:
+                if k.arg not in names or k.arg in args:
+                    raise Untranslatable('load_hashmap_aug_e arguments')
+                args[k.arg] = k.value
+            if set(args) != set(names) or const_int(args['key_length'], env) is None:
+                raise Untranslatable('load_hashmap_aug_e(N, x_deserializer, y_deserializer) expected')
+            x = self.value_reader(args['x_deserializer'], env)
+            y = self.value_reader(args['y_deserializer'], env)
+            t = ctx.fresh()
+            out.append(f'let ({t}, {s.var}) ← Rd.loadHashmapAugE {const_int(args["key_length"], env)} {x} {y} {s.sp} {s.var}')
+            return V(t, 'val')
         return super().call(e, env, out)
 
     def construct(self, tname, e, env, out):
@@ -103,6 +123,26 @@ class FnBlk(TX.FnTx):
         return TP.Fn.construct(self, tname, e2, env, out)
 
 
+def hoist_defs(stmts, lambdas):
+    """`def f(src): return e` anywhere in the method (also inside an `if` branch) -> the name f bound to `lambda src: e` for the whole
+    method; the callbacks capture nothing (checked where they are used: one read of their own argument), names must be unique"""
+    out = []
+    for s in stmts:
+        if isinstance(s, ast.FunctionDef):
+            stm = [x for x in s.body if not (isinstance(x, ast.Expr) and isinstance(x.value, ast.Constant))]
+            if len(stm) != 1 or not isinstance(stm[0], ast.Return) or stm[0].value is None or s.decorator_list or s.name in lambdas:
+                raise Untranslatable(f'nested function {s.name} is not a unique `return <expression>`')
+            lambdas[s.name] = ast.Lambda(args=s.args, body=stm[0].value)
+        elif isinstance(s, ast.If):
+            s2 = copy.copy(s)
+            s2.body = hoist_defs(s.body, lambdas) or [ast.Pass()]
+            s2.orelse = hoist_defs(s.orelse, lambdas)
+            out.append(s2)
+        else:
+            out.append(s)
+    return out
+
+
 class TranslatorBlk(TX.TranslatorTx):
     def translate(self, mod, cls):
         fn = self.method(mod, cls, 'deserialize')
@@ -114,8 +154,11 @@ class TranslatorBlk(TX.TranslatorTx):
         sl = a.args[1].arg
         ctx = Ctx(self, cls, mod)
         env = {sl: S(sl, 'sp')}
-        body, lambdas = TX.inline_local_defs(fn)
+        lambdas = {}
+        body = hoist_defs(list(fn.body), lambdas)
         for k, lam in lambdas.items():
+            if any(isinstance(n, ast.Name) and n.id == k and isinstance(n.ctx, ast.Store) for n in ast.walk(fn)):
+                raise Untranslatable(f'the name of the nested function {k} is also assigned')
             env[k] = lam
         text = FnBlk(ctx).block(body, env, sl, 1)
         sig = f'def {cls} (sp : Bool) ({sl} : Frag) : Rd.R := do'
